@@ -62,7 +62,7 @@ def one(seed):
     os.makedirs(d, exist_ok=True)
     meta = {"id": sid, "property": prop, "needs_to_manifest": needs, "source": "independent sub-agent given only the property text and a scratch worktree"}
     # verification: on current HEAD when the patch and the demo apply there, else on the commit the agent worked on
-    wt = "/tmp/wt-" + prop
+    wt = os.path.dirname(os.path.dirname(patch)) if patch.startswith("/tmp/wt") else "/tmp/wt-" + prop
     rc, base = sh("git -C %s rev-parse HEAD" % wt)
     base = base.strip() if rc == 0 else "HEAD"
     rc, out = sh("/verif/bin/seedverify %s %s HEAD" % (patch, demo))
